@@ -78,7 +78,7 @@ def segment_level_status(node, parent, own, soll):
     return combine(parent, map_status(o["ind"], o["ful"], soll)), o["hints"], False
 
 
-def walk(groups, own, soll_is_required, pending_errors=None):
+def walk(groups, own, soll_is_required, pending_errors=None, parent=None):
     """expected result list [(id, kind, status, details)] in document order.
     Raises ExpectNotImplemented if any VISITED node demands it (all nodes of a level are evaluated concurrently, so the
     error is expected no matter where in the visited part of the tree it sits)."""
@@ -126,7 +126,9 @@ def walk(groups, own, soll_is_required, pending_errors=None):
             seg(s, status)
 
     for g in groups:
-        (seg if g["kind"] == "segment" else grp)(g, None)  # a segment may be validated as root (validate_segment_level)
+        # a segment may be validated as root (validate_segment_level); `parent` = status handed in by a caller of
+        # validate_segment_group / validate_segment (None, IS_REQUIRED or IS_OPTIONAL)
+        (seg if g["kind"] == "segment" else grp)(g, parent)
     if errors:
         raise ExpectNotImplemented(errors)
     return out
